@@ -61,6 +61,12 @@ void vp_observe(uint64_t v) { }
 size_t nondet_size_t(void);
 __CPROVER_size_t __ll2c_nondet_size(void) { return nondet_size_t(); }
 #endif
+// free() of the static arena that replaces the first realloc (harness option) is a no-op
+#ifdef __LL2C_CONCRETE
+void __ll2c_free(uint8_t* p) { free(p); }
+#else
+void __ll2c_free(uint8_t* p) { if (p != 0 && !__CPROVER_DYNAMIC_OBJECT(p)) return; free(p); }
+#endif
 void __ll2c_note_alloc(void* p) { __CPROVER_assume(p != 0); }
 void __ll2c_check_aligned(int ok) { __CPROVER_assert(ok, "ll2c: typed access through byte pointer is aligned"); }
 void __ll2c_cut_realloc(void) {
